@@ -76,7 +76,13 @@ func symxC07() {
 		b2 = symxNewBroker(2, 1)
 		tp = b2.start(nil)
 		target = b2
-		for _, payload := range rt.Drain(b.bq) {
+		// gossip may reach the peer in any order: the solver picks a pair of broadcasts to swap
+		payloads := rt.Drain(b.bq)
+		if n := len(payloads); n >= 2 {
+			i, j := int(rt.Int("swap_a", 0, int64(n-1))), int(rt.Int("swap_b", 0, int64(n-1)))
+			payloads[i], payloads[j] = payloads[j], payloads[i]
+		}
+		for _, payload := range payloads {
 			b2.state.Distributor().NotifyMsg(payload)
 		}
 	}
